@@ -179,6 +179,18 @@ theorem complete_count {α : Type} (T m : ℕ) (g : α → ℕ) (key : Fin m →
   have := Fintype.card_of_bijective ⟨hinj, hsurj⟩
   simpa using this
 
+/-- C11/C13: marking k pairwise distinct positions below n marks exactly k positions. -/
+theorem scatter_count (n k : ℕ) (ix : Fin k → Fin n) (hinj : Function.Injective ix) :
+    (Finset.univ.filter (fun p : Fin n => ∃ j, ix j = p)).card = k := by
+  have h : Finset.univ.filter (fun p : Fin n => ∃ j, ix j = p) = Finset.univ.image ix := by
+    ext p; simp
+  rw [h, Finset.card_image_of_injective _ hinj]; simp
+
+/-- C11: a boolean selection splits a list into two parts that together are a permutation of it. -/
+theorem filter_partition {α : Type} (p : α → Bool) (l : List α) :
+    List.Perm (l.filter p ++ l.filter (fun x => !p x)) l :=
+  List.filter_append_perm p l
+
 /-! ### C15: the combinadic rank is strictly monotone (hence injective) and bounded by C(n,k);
     with equal finite cardinalities this makes unranking a bijection. -/
 
